@@ -97,9 +97,10 @@ func (w *World) RunScript(lines []string) (err error) {
 		if toks[0] == "scn" {
 			w.resetScenario(toks[1])
 			a := kvArgs(toks[2:])
+			w.revTie = a["sortfn"] == "revtie"
 			w.printf("%s\n", line)
 			for _, p := range w.peers {
-				w.printf("peer %d rank=%d\n", p.idx, p.rank)
+				w.printf("peer %d rank=%d\n", p.idx, w.rankOf(p.idx))
 			}
 			var write []string
 			if a["acl"] == "*" {
